@@ -2,6 +2,7 @@ package main
 
 import (
 	"fmt"
+	"go/token"
 	"go/types"
 	"regexp"
 	"sort"
@@ -751,6 +752,27 @@ func init() {
 		}
 		fk := funcKey(f)
 		n := 0
+		isFieldRead := func(v ssa.Value, fld string) bool { // chDesc.<fld> of some descriptor value
+			switch x := stripConv(v).(type) {
+			case *ssa.UnOp:
+				if fa, ok := x.X.(*ssa.FieldAddr); ok && x.Op == token.MUL {
+					return fieldName(fa.X.Type(), fa.Field) == fld
+				}
+			case *ssa.Field:
+				return fieldName(x.X.Type(), x.Field) == fld
+			}
+			return false
+		}
+		zeroGuardOn := func(v ssa.Value) Guard {
+			return Guard{Name: "the configured value is unset (zero)", Match: func(w *World, ff *ssa.Function, a Atom) bool {
+				if a.Kind != "cmp" || a.Op != token.EQL {
+					return false
+				}
+				kx, xc := constInt(a.X)
+				ky, yc := constInt(a.Y)
+				return (sameValue(a.X, v) && yc && ky == 0) || (sameValue(a.Y, v) && xc && kx == 0)
+			}}
+		}
 		for _, di := range w.deepInstrs(f, 1) {
 			st, ok := di.in.(*ssa.Store)
 			if !ok {
@@ -763,12 +785,44 @@ func init() {
 			if nt := derefNamed(fa.X.Type()); nt == nil || nt.Obj().Name() != "ChannelDescriptor" {
 				continue
 			}
-			if _, isC := constInt(st.Val); !isC {
+			fld := fieldName(fa.X.Type(), fa.Field)
+			key := fk + " :: default for " + fld
+			if _, isC := constInt(st.Val); isC {
+				// if field == 0 { field = default }
+				n++
+				c.guards(st.Parent(), st, key, 0, guardCmp("the field is unset", `\w+\.`+fld, "==", "0"))
+				continue
+			}
+			// field = pick(configured, default): the helper answers the default only for a zero configured value
+			call := valueCall(st.Val)
+			if call == nil {
+				continue
+			}
+			h := staticCallee(call)
+			args := call.Common().Args
+			if h == nil || h.Blocks == nil || len(args) != 2 || len(h.Params) != 2 {
+				continue
+			}
+			if _, defIsConst := constInt(args[1]); !defIsConst || !isFieldRead(args[0], fld) {
+				c.Fail(key, w.ipos(st), fld+" = "+w.expr(st.Val)+": not the configured value of the same field with a constant default")
 				continue
 			}
 			n++
-			fld := fieldName(fa.X.Type(), fa.Field)
-			c.guards(st.Parent(), st, fk+" :: default for "+fld, 0, guardCmp("the field is unset", `\w+\.`+fld, "==", "0"))
+			okAll := true
+			for _, r := range returnsOf(h) {
+				ret := r.(*ssa.Return)
+				v := stripConv(ret.Results[0])
+				switch {
+				case v == ssa.Value(h.Params[0]):
+				case v == ssa.Value(h.Params[1]):
+					if okG, _ := c.ge().guardedLocal(h, ret, zeroGuardOn(h.Params[0]), 0); !okG {
+						okAll = false
+					}
+				default:
+					okAll = false
+				}
+			}
+			c.Check(okAll, key, w.ipos(st), "configured value, or the default when it is zero", funcKey(h)+" can answer the default for a configured (non-zero) value, or something else")
 		}
 		c.Check(n >= 3, fk+" :: default substitutions found", w.pos(f.Pos()), ">= 3", fmt.Sprintf("%d", n))
 	})
